@@ -332,8 +332,8 @@ def structural_eq(a, b, eq_elem):
     the concrete leaf sets, else None is returned and the caller falls back to abstract
     equality): elements are non-empty, contain no separator, the sets of possible elements at
     different positions are pairwise disjoint, every prefix value ends with a character
-    sequence that no element/suffix can extend ambiguously (all prefix values have the same
-    length or are empty).
+    sequence that no element/suffix can extend ambiguously (the possible values of a text piece
+    form a prefix-free set).
     Returns a z3 Boolean or None.
     """
     pa, pb = _parts(a), _parts(b)
@@ -365,8 +365,9 @@ def structural_eq(a, b, eq_elem):
             s1, s2 = possible_values(x), possible_values(y)
             if s1 is None or s2 is None:
                 return None
-            lens = {len(v) for v in s1 | s2}
-            if len(lens) != 1:
+            u = sorted(s1 | s2)
+            # the piece must be uniquely delimited: no possible value is a proper prefix of another
+            if any(a != b and b.startswith(a) for a in u for b in u):
                 return None
             conj.append(eq_elem(x, y))
     # a join piece must be last or followed by nothing ambiguous: only allow it as final piece
